@@ -141,7 +141,7 @@ def make_items(tier, seed):
     u = rf[:120] + u + rf[120:]
     core = rf[:120] + mut[::4] + [sp for i, sp in enumerate(u) if sp["fam"] == "param-history" and i % 2 == 0] + [sp for i, sp in enumerate(u) if sp["fam"] == "param" and i % 5 == 0]
     rest = [sp for sp in u if sp not in core]
-    return slice_quick(core + rest, seed, len(core), 150)
+    return slice_quick(core + rest, seed, len(core), 450)
 
 
 def mutval(v):
